@@ -253,7 +253,7 @@ def record_traces(seed, count, nmax, maxw=2):
                 b = b + [rnd.choice(delivered)]
             delivered += b
             hist.append(["D", sorted(set(b))])
-            if rnd.random() < 0.3 and nlock < 2:
+            if rnd.random() < 0.3 and nlock < 3:
                 hist.append(["L", None])   # resolved at run time (needs the current length)
                 nlock += 1
         lab = drv.mk_label("bytes" if t % 2 else "int", n, tuple(rnd.sample(range(1, n + 1), n)))
@@ -265,9 +265,13 @@ def record_traces(seed, count, nmax, maxw=2):
                 cur = drv.run_history(par, wt, real_hist, lab)
                 ln = cur[-1].get("len", 0) if cur else 0
                 lk = cur[-1].get("locked", 0) if cur else 0
-                if ln - lk < 1:
+                if ln - lk < 1 and lk < 1:
                     continue
-                a = ["L", rnd.randint(lk + 1, ln)]
+                # mostly a new lock; sometimes a prefix that is already locked (nothing may change)
+                if lk >= 1 and (ln - lk < 1 or rnd.random() < 0.25):
+                    a = ["L", rnd.randint(1, lk)]
+                else:
+                    a = ["L", rnd.randint(lk + 1, ln)]
             real_hist.append(a)
         projs = drv.run_history(par, wt, real_hist, lab, record_finder=True)
         traces.append({"par": par, "wt": wt, "n": n, "hist": real_hist, "projs": projs})
